@@ -117,7 +117,7 @@ require (
 
 func makeCorpusModule() string {
 	root := ggrun.Scratch()
-	sum, _ := os.ReadFile("/repo/go.sum")
+	sum, _ := os.ReadFile(repoDir() + "/go.sum")
 	ggrun.WriteTree(root, map[string]string{"go.mod": corpusGoMod, "go.sum": string(sum),
 		"dummy.go": "package corpus\n\nimport (\n\t_ \"github.com/cloudflare/ahocorasick\"\n\t_ \"github.com/davecgh/go-spew/spew\"\n\t_ \"github.com/pmezard/go-difflib/difflib\"\n\t_ \"github.com/stretchr/testify/assert\"\n\t_ \"golang.org/x/mod/semver\"\n\t_ \"golang.org/x/sync/errgroup\"\n\t_ \"golang.org/x/tools/go/analysis\"\n\t_ \"gopkg.in/yaml.v3\"\n)\n"})
 	return root
